@@ -412,6 +412,8 @@ CHECKS["C18"] = {
         {"name": "afterclose", "pkg": "internal/session", "pkgname": "session", "entry": "VerifC18AfterClose", "files": ["zz_verif_c18.go", "zz_verif_c18b.go"],
          "with": ["state_export", "backend_export", "verifdb"],
          "params": {"quick": [{}], "thorough": [{}]}, "cover": ["after-close"]},
+        {"name": "dbpath", "pkg": "internal/db_impl/sqlite3", "pkgname": "sqlite3", "entry": "VerifC18DBPath", "files": ["zz_verif_c18.go"],
+         "params": {"quick": grid(n=[1, 2]), "thorough": grid(n=[3])}, "cover": ["uri-parsed"]},
     ],
     "stubs": ["connector.Connector stub (Authorize returns a chosen answer)", "time.AfterFunc -> recorded, never fired", "sync.WaitGroup / Mutex -> single-goroutine model (Wait on a non-zero group = BLOCKED)", "profiling / observability / reporter / logrus -> no-op"],
     "outside": ["'each user has its own database, store and connector' is object wiring, not a computation (the login harness checks that the session is bound to the matching user's object)", "real time (that the jail lasts exactly loginJailTime)", "non-ASCII credential bytes"],
